@@ -220,6 +220,8 @@ impl<L: Language> DeserializeEnv<L> {
         .insert(id, matcher)
         .map_err(RuleSerializeError::MatchesReference)?;
     }
+    // global rules can refer to each other, so check the references once all are registered
+    registration.verify_utils()?;
     Ok(registration)
   }
 
